@@ -49,7 +49,7 @@ SPEC = {
              "real traces.  Non-trivial = some line is touched at least twice (model cases) / the filter keeps "
              "and drops at least one row / both merged files hold rows; distinct = distinct case description."),
     "shards": {"quick": 16, "thorough": 16},
-    "budget_s": {"quick": 0, "thorough": 500},
+    "budget_s": {"quick": 0, "thorough": 900},
     "timeout_s": {"quick": 900, "thorough": 1500},
     "min_counts": {"quick": {"evaluations": 8000, "oracle_evals": 300000, "model_calls": 40000, "buffet_calls": 15000,
                              "cache_calls": 20000, "fnu_checked": 15000, "optimum_checked": 5000,
